@@ -121,7 +121,13 @@ G9 = Obj("dataclass", "G9", (Fld("c", COLOR, has_default=True, default="$enum:Co
 PT = Obj("namedtuple", "Pt", (Fld("x_coord", INT, has_default=True, default=1), Fld("y_coord", INT, has_default=True, default=2)))
 G10 = Obj("dataclass", "G10", (Fld("shape_name", STR), Fld("origin_point", PT, factory="obj:Pt"), Fld("opt_point", Opt(PT), has_default=True, default=None)))
 
-GQL_OBJECTS = [G1, G2, G3, G4, G5, G6, G7, G8, G9, PT, G10]
+# flattened fields nested two and three levels deep
+LEAF = Obj("dataclass", "Leaf", (Fld("leaf_value", INT), Fld("leaf_color", Opt(COLOR), has_default=True, default=None)))
+MIDDLE = Obj("dataclass", "Middle", (Fld("middle_value", STR), Fld("leaf", LEAF, flatten=True)))
+TOP = Obj("dataclass", "Top", (Fld("top_value", INT), Fld("middle", MIDDLE, flatten=True)))
+ROOF = Obj("dataclass", "Roof", (Fld("roof_value", BOOL), Fld("top", TOP, flatten=True), Fld("tail", INT, has_default=True, default=0)))
+
+GQL_OBJECTS = [G1, G2, G3, G4, G5, G6, G7, G8, G9, PT, G10, LEAF, MIDDLE, TOP, ROOF]
 
 
 def is_extra(td, kind=None) -> bool:
@@ -584,7 +590,7 @@ EMPTY = inspect.Parameter.empty
 
 def output_types(tier: str) -> List[Any]:
     base = [INT, FLOAT, STR, BOOL, Opt(INT), Coll("list", INT), Coll("list", Opt(STR)), Opt(Coll("list", Coll("list", INT))), COLOR, Opt(COLOR), Coll("list", COLOR), MOOD, USERID, KEY, ID_T, Opt(ID_T), UNDEF_INT, STAMP, Coll("list", BOXED), Uni((CAT, DOG)), Opt(Uni((CAT, DOG))), Coll("list", Uni((CAT, DOG))), SHAPE, Coll("list", SHAPE), Opt(SHAPE)]
-    objs = [P.A, P.B, P.C, P.D, P.E, P.K_, P.M_, P.N_, P.NT, P.NODE, P.PQ_P, P.FB2, P.I_, P.J, CAT] + GQL_OBJECTS
+    objs = [P.A, P.B, P.C, P.D, P.E, P.K_, P.M_, P.N_, P.NT, P.NODE, P.PQ_P, P.FB2, P.I_, P.J, CAT] + [o for o in GQL_OBJECTS if o is not LEAF]
     if tier == "thorough":
         objs += [P.L_, P.A2, DOG]
         base += [Coll("sequence", FLOAT), Coll("set", INT), Opt(Coll("list", Opt(P.A))), AnyT(), Coll("tuplevar", STR)]
@@ -627,7 +633,7 @@ def values_of(world: World, td, tier: str) -> List[Any]:
         return vals
     if isinstance(t, Uni):
         return [v for a in t.alts if a != NONE for v in values_of(world, a, tier)[:2]]
-    if isinstance(t, Obj) and t.name.startswith("G"):
+    if isinstance(t, Obj) and t.name.startswith("G") and t.name[1:].isdigit():
         return gql_values(world, t)
     out = []
     for d in P.valid_samples(t)[: (3 if tier == "quick" else 6)]:
@@ -839,6 +845,28 @@ def _run_cfg(report, tier, rng, cfg: Cfg, world: World, mlog, elog, alog, out_li
             fn = make_fn(name, [("some_arg", ann, default)], bool, recorder(name))
             (mutations if i % 4 == 0 else queries).append(fn)
             arg_ops.append({"name": name, "td": td, "kind": kind, "ann": ann, "default": default, "nullable": nullable, "root": "mutation" if i % 4 == 0 else "query"})
+    # constraints given only through parameters_metadata (Query / Mutation wrappers)
+    if misc:
+        from apischema import schema as ap_schema
+
+        md_types = [(INT, cons(min=0, max=10)), (STR, cons(min_len=2, pattern="^a")), (Coll("list", INT), cons(max_items=2, unique=True)), (FLOAT, cons(exc_min=0)), (Opt(INT), cons(min=1)), (POS, cons(max=5)), (Coll("list", STR), cons(min_items=1))]
+        for j, (td, c) in enumerate(md_types):
+            tp = R(td)
+            sch = ap_schema(**dict(c.kw))
+            dflt = None
+            for g in P.valid_samples(Ann(td, c)):
+                r = outcome_ok(lambda: deserialize(tp, copy.deepcopy(g), schema=sch))
+                if r[0] and r[1] is not None:
+                    dflt = r[1]
+                    break
+            for kind, default in (("required", EMPTY), ("default", dflt)):
+                if kind == "default" and dflt is None:
+                    continue
+                name = f"q_md_{j}_{kind}"
+                fn = make_fn(name, [("some_arg", tp, default)], bool, recorder(name))
+                root = "mutation" if j % 2 else "query"
+                (mutations if j % 2 else queries).append((Mutation if j % 2 else Query)(fn, parameters_metadata={"some_arg": sch}))
+                arg_ops.append({"name": name, "td": td, "kind": kind, "ann": tp, "default": default, "nullable": False, "root": root, "md": c, "schema": sch})
     # several parameters, info parameter, metadata
     multi = make_fn("multi_params", [("first_one", int, EMPTY), ("second_one", typing.Optional[str], None), ("third_one", R(P.NT), world.realm.built["NT"](a=1)), ("info", typing.Optional[graphql.GraphQLResolveInfo], None)], bool, recorder("multi_params"))
     if misc:
@@ -892,6 +920,29 @@ def _run_cfg(report, tier, rng, cfg: Cfg, world: World, mlog, elog, alog, out_li
     if misc:
         queries.append(make_fn("host", [], Host, lambda: Host(21)))
 
+    Host2 = dataclasses.make_dataclass("Host2", [("base", int)])
+    Host2.__module__ = world.realm.name
+
+    def scaled(self, times: int = 1, label: str = "ab") -> int:
+        calls.append(("scaled", {"times": times, "label": label}))
+        return self.base * times
+
+    scaled.__annotations__ = {"times": int, "label": str, "return": int}
+    from apischema import schema as ap_schema2
+    from apischema.conversions import Conversion as Conversion2
+    from apischema.metadata import conversion as conv_md2
+
+    resolver("scaled", owner=Host2, parameters_metadata={"times": ap_schema2(min=1, max=3), "label": ap_schema2(min_len=2)})(scaled)
+    if misc:
+        queries.append(make_fn("host2", [], Host2, lambda: Host2(5)))
+
+    class Tok(OpaqueBase):
+        pass
+
+    tok_conv = Conversion2(Tok, source=str, target=Tok)
+    if misc:
+        queries.append(Query(make_fn("tok_len", [("tok", Tok, EMPTY)], bool, recorder("tok_len")), parameters_metadata={"tok": conv_md2(deserialization=tok_conv) | ap_schema2(min_len=2)}))
+
     def raising() -> int:
         raise RuntimeError("op failed")
 
@@ -913,7 +964,7 @@ def _run_cfg(report, tier, rng, cfg: Cfg, world: World, mlog, elog, alog, out_li
     extra_types = [world.realm.built["Square"], world.realm.built["Circle"]] if misc or any(_has(oracle, td, "iface") for _, td in out_list) else []
     # every operation must be supported on its own; one that is not is reported and left out of
     # the common schema (so that the others are still checked)
-    descr = {op["name"]: f"{short(op['td'])}:{op['kind']}:default={op['default']!r}"[:200] for op in arg_ops}
+    descr = {op["name"]: f"{short(op['td'])}:{op['kind']}:default={op['default']!r}"[:200] + (":parameters_metadata" if op.get("md") else "") for op in arg_ops}
     descr.update({name: short(td) for name, td in out_ops})
 
     def fn_name(op):
@@ -1025,6 +1076,11 @@ def _run_cfg(report, tier, rng, cfg: Cfg, world: World, mlog, elog, alog, out_li
                 expect("Host.double: arguments", {k: (str(a.type), a.default_value) for k, a in dbl.args.items()}, {cfg.al("times"): ("Int!", 2)}, ("OutputSchemaBuilder._resolver",))
         expect("Query.raising_*: types", [str(qt.fields[cfg.al(n)].type) if cfg.al(n) in qt.fields else None for n in ("raising_none", "raising_default")], ["Int", "Int!"], ("OutputSchemaBuilder._resolver",))
         expected_named["Host"] = ("object-host", None)
+        expected_named["Host2"] = ("object-host", None)
+        h2 = schema.type_map.get("Host2")
+        expect("type Host2: resolver with parameters_metadata", {k: {a: str(x.type) for a, x in f.args.items()} for k, f in h2.fields.items()} if h2 else None, {cfg.al("base"): {}, cfg.al("scaled"): {cfg.al("times"): "Int!", cfg.al("label"): "String!"}}, ("OutputSchemaBuilder._resolver",))
+        tk = qt.fields.get(cfg.al("tok_len"))
+        expect("Query.tok_len: parameter converted through parameters_metadata", {a: str(x.type) for a, x in tk.args.items()} if tk else None, {cfg.al("tok"): "String!"}, ("OutputSchemaBuilder._resolver",))
         expected_named["Color"] = ("enum", COLOR)
     if extra_types:
         _names_of_objects(oracle, SHAPE, "out", expected_named)
@@ -1150,8 +1206,9 @@ def _run_cfg(report, tier, rng, cfg: Cfg, world: World, mlog, elog, alog, out_li
             q_var = f"{prefix}($v: {arg_type}) {{ {opname}({cfg.al('some_arg')}: $v) }}"
             q_absent = f"{prefix} {{ {opname} }}"
             td, tp = op["td"], world.real(op["td"])
-            pool = P.data_pool(td, tier, rng) if not is_extra(td) else extra_pool(td)
-            pool = pool[: (14 if tier == "quick" else 50)]
+            pool = P.data_pool(Ann(td, op["md"]) if op.get("md") else td, tier, rng) if not is_extra(td) else extra_pool(td)
+            pool = pool[: ((24 if op.get("md") else 14) if tier == "quick" else 50)]
+            dkw = {"schema": op["schema"]} if op.get("md") else {}
             sent = set()
             for d in pool:
                 try:
@@ -1168,7 +1225,7 @@ def _run_cfg(report, tier, rng, cfg: Cfg, world: World, mlog, elog, alog, out_li
                     continue
                 sent.add(key)
                 # graphql-core materialises the declared defaults of absent input fields
-                exp = outcome_ok(lambda: deserialize(tp, oracle.fill(td, copy.deepcopy(d)), aliaser=plain_alias))
+                exp = outcome_ok(lambda: deserialize(tp, oracle.fill(td, copy.deepcopy(d)), aliaser=plain_alias, **dkw))
                 del calls[:]
                 try:
                     res = graphql.graphql_sync(schema, q_var, variable_values={"v": g})
@@ -1176,7 +1233,7 @@ def _run_cfg(report, tier, rng, cfg: Cfg, world: World, mlog, elog, alog, out_li
                     alog.fail(f"arg-crash:{cfg.name}:{short(td)}:{op['kind']}:{d!r}", f"[{cfg.name}] executing {q_var} with {g!r} raised {e!r}", {"config": cfg.name, "type": short(td), "kind": op["kind"], "datum": repr(d)}, observed=repr(e)[:300], functions_involved=["resolver_resolve"])
                     continue
                 alog.case((cfg.name, short(td), op["kind"], repr(d)), wellformed, sample={"config": cfg.name, "type": short(td), "default": op["kind"], "datum": d, "variable": g})
-                sig = f"{cfg.name}:{short(td)}:{op['kind']}:{d!r}"
+                sig = f"{cfg.name}:{short(td)}{'+parameters_metadata(' + str(dict(op['md'].kw)) + ')' if op.get('md') else ''}:{op['kind']}:{d!r}"
                 case = {"config": cfg.name, "type": short(td), "kind": op["kind"], "datum": repr(d), "variable": repr(g), "query": q_var}
                 if not wellformed:
                     # graphql-core decides (it coerces 1.0 to Int, wraps single values into
@@ -1223,6 +1280,29 @@ def _run_cfg(report, tier, rng, cfg: Cfg, world: World, mlog, elog, alog, out_li
             alog.case((cfg.name, "pt_default given"), True, sample={"config": cfg.name, "query": q})
             if res.errors or len(calls) != 1 or calls[0][1].get("some_pt") != Pt(x_coord=5):
                 alog.fail(f"arg-object:{cfg.name}:pt_default", f"[{cfg.name}] {q}: errors {[e.message for e in res.errors or []][:2]} calls {calls!r}", {"config": cfg.name, "query": q}, observed=repr((res.errors, calls))[:500], expected="Pt(x_coord=5, y_coord=2)", functions_involved=["resolver_resolve"])
+        if misc:
+            # resolver method / operation whose constraints and conversion come from
+            # parameters_metadata only: as deserialize(type, value, schema=..., conversion=...)
+            h2q = lambda args: "{ " + cfg.al("host2") + " { " + cfg.al("scaled") + (("(" + args + ")") if args else "") + " } }"  # noqa: E731
+            for times, label in [(None, None), (1, None), (3, "abc"), (0, None), (4, None), (7, "ab"), (2, "a"), (2, "")]:
+                args = ", ".join(([f"{cfg.al('times')}: {times}"] if times is not None else []) + ([f'{cfg.al("label")}: "{label}"'] if label is not None else []))
+                del calls[:]
+                res = graphql.graphql_sync(schema, h2q(args))
+                valid = (times is None or 1 <= times <= 3) and (label is None or len(label) >= 2)
+                alog.case((cfg.name, "Host2.scaled", args), True, sample={"config": cfg.name, "query": h2q(args)})
+                exp_call = ("scaled", {"times": 1 if times is None else times, "label": "ab" if label is None else label})
+                if valid and (res.errors or calls != [exp_call]) or not valid and (not res.errors or calls):
+                    alog.fail(f"arg-resolver-metadata:{cfg.name}:scaled({args})", f"[{cfg.name}] {h2q(args)} with parameters_metadata times: schema(min=1, max=3), label: schema(min_len=2): errors {[e.message for e in res.errors or []][:2]} calls {calls!r}; expected {'the call ' + repr(exp_call) if valid else 'an error and no call'}", {"config": cfg.name, "query": h2q(args)}, observed=repr((res.errors, calls))[:500], expected=repr(exp_call) if valid else "errors, no call", functions_involved=["resolver_resolve", "deserialization_method"])
+            for text in ["abc", "ab", "a", ""]:
+                del calls[:]
+                q = f'{{ {cfg.al("tok_len")}({cfg.al("tok")}: "{text}") }}'
+                res = graphql.graphql_sync(schema, q)
+                # exactly as deserialize(type, value, conversion=..., schema=...) would
+                valid = outcome_ok(lambda: deserialize(Tok, text, conversion=tok_conv, schema=ap_schema2(min_len=2)))[0]
+                alog.case((cfg.name, "tok_len", text), True, sample={"config": cfg.name, "query": q})
+                okc = len(calls) == 1 and isinstance(calls[0][1].get("tok"), OpaqueBase) and calls[0][1]["tok"].payload == text
+                if valid and (res.errors or not okc) or not valid and (not res.errors or calls):
+                    alog.fail(f"arg-conversion-metadata:{cfg.name}:tok_len({text!r})", f"[{cfg.name}] {q} (parameter converted from str and constrained by min_len=2 through parameters_metadata): errors {[e.message for e in res.errors or []][:2]} calls {calls!r}", {"config": cfg.name, "query": q}, observed=repr((res.errors, calls))[:500], expected="Tok(text)" if valid else "errors, no call", functions_involved=["resolver_resolve", "deserialization_method"])
         # several parameters: aliases of parameter names, object default, info
         if not has_multi:
             return
